@@ -3236,8 +3236,9 @@ orc_compiler_mmx_register_rules (OrcTarget *target)
   rule_set = orc_rule_set_new (orc_opcode_set_get("sys"), target,
       ORC_TARGET_MMX_MMXEXT);
 #else
+  /* loads, stores and constants use pinsrw, pextrw and pshufw */
   rule_set = orc_rule_set_new (orc_opcode_set_get("sys"), target,
-      ORC_TARGET_MMX_MMX);
+      ORC_TARGET_MMX_MMX | ORC_TARGET_MMX_MMXEXT);
 #endif
 
   orc_rule_register (rule_set, "loadb", mmx_rule_loadX, NULL);
